@@ -423,6 +423,25 @@ theorem bookkeeping_follows_flags_none (st : Start) (ops : List Op) (h : HRes) (
 theorem bookkeeping_determined {dflt left : Id} {v r1 r2 : Int} {d1 d2 : Id}
     (h1 : Follows dflt left v r1 d1) (h2 : Follows dflt left v r2 d2) : r1 = r2 ∧ d1 = d2 := follows_unique h1 h2
 
+/-- nested dispatch, against `Follows`: the outer bookkeeping follows the flags and the event id the inner
+    `mpt_dispatch_hash` left -/
+theorem nested_dispatch_follows_flags (st : Start) (ops : List Op) (b : Byte) (rest : List Byte) (h : HRes) :
+    ∃ sp, (Spec.init st).run (run st ops).2 = some sp ∧ ∃ o, o ∈ sp.hashOutcomes (some (b :: rest)) h ∧
+      let m := stateAfter st ops
+      let r := step m (.emitCmd (b :: rest) h)
+      ∀ t, sp.target b.toUInt64 = some t → o.2.1 < 2 ^ 31 →
+        r.2.log = .call t b.toUInt64 :: o.1 ∧ ∃ ret, r.2.ret = .val ret ∧ Follows m.d.dflt o.2.2 o.2.1 ret r.1.d.dflt := by
+  obtain ⟨sp, hrun, o, ho, hmain⟩ := nested_dispatch st ops b rest h
+  refine ⟨sp, hrun, o, ho, ?_⟩
+  intro m r t ht hv
+  have hm := hmain
+  simp only [ht] at hm
+  obtain ⟨hlog, hret, hd⟩ := hm
+  refine ⟨hlog, _, hret, ?_⟩
+  rw [hd]
+  have := book_follows m.d.dflt o.2.2 ⟨o.2.1, false⟩ hv
+  simpa using this
+
 /-- answer `Default|Fail` (3) with the id kept: event 7 becomes the default, the caller sees 3; answer 4 (another
     flag) while a default exists: handed through with `Default` added; an error changes nothing -/
 example : Follows 0 7 3 3 7 ∧ Follows 7 9 4 5 7 ∧ Follows 7 9 (-5) (-5) 7 ∧ ¬ Follows 0 7 3 3 0 ∧ ¬ Follows 7 9 4 4 7 := by
@@ -475,6 +494,14 @@ theorem reserve_unique_any_table (tab tab' : Option Table) (w idx : Nat) (h : co
     simp only [Slot.live, Option.isSome_some, if_true, List.map_append, List.map_cons, List.nodup_append, List.nodup_cons,
       List.mem_map, List.mem_append, List.mem_cons] at hnd hfresh ⊢
     grind
+
+/-- **known finding (outside the clauses of the property)**: while a reservation is outstanding — the element still
+    carries the library's placeholder handler `log_reply`, which takes its second argument for a message — an event
+    with the reserved id is undefined behaviour (the real code reads the event structure as a message:
+    stack-buffer-overflow, `e holdemit 1` in the harness).  The histories of the theorems above activate a reservation
+    at once, which is what `no_fault` rests on. -/
+theorem outstanding_reservation_event_counterexample :
+    (dispatchEmit ⟨(commandReserve none 1).1, 0, none, false⟩ (some ⟨1, none⟩) ⟨0, false⟩).2.ret = .fault := by decide
 
 /-- **when reserve must succeed**: for a valid width class `mpt_command_reserve` hands out an id whenever some id of
     the class's range `1..max` is carried by no active element (it refuses only when the whole range is taken);
